@@ -274,6 +274,22 @@ def collect(prop, repo):
                 if sk.outer_cells:
                     return 'failed', 'observable() creates state cell(s) %s outside the closure passed to Observable::create: shared by every subscription made through the same Observable value' % sorted(sk.outer_cells)
             ob('%s.observable.per_subscription_state' % os.path.basename(rel)[:-3], rel, f)
+    if prop == 'C10':
+        # AsyncSubject = inner Subject followed by take_last(1): both parts are under contract separately (Kani Subject harnesses; Verus
+        # take_last unit + lemma last_is_take_last_1); this obligation pins the composition itself
+        def async_comp():
+            src = _read(repo, 'src/subjects/async_subject.rs')
+            toks = rxprep.strip_test_mods(tree(src))
+            ms = impl_methods(toks, 'AsyncSubject')
+            need = {'next': '{self.subject.next(item);}', 'error': '{self.subject.error(err);}', 'complete': '{self.subject.complete();}',
+                    'observable': '{self.subject.observable().take_last(1).clone()}'}
+            for name, want in need.items():
+                if name not in ms:
+                    raise rxprep.AnchorLost('AsyncSubject::%s' % name)
+                got = re.sub(r'\s+', '', src[ms[name].start:ms[name].end])
+                if got != want:
+                    return 'undecided', 'AsyncSubject::%s is no longer `%s` (composition Subject . take_last(1) not recognised): %s' % (name, want, got[:120])
+        ob('async_subject.is_subject_then_take_last_1', 'src/subjects/async_subject.rs', async_comp)
     if prop == 'C13':
         for rel, st in (('src/operators/publish.rs', 'Publish'), ('src/operators/ref_count.rs', 'RefCount'), ('src/operators/replay.rs', 'Replay')):
             def g(rel=rel, st=st):
